@@ -155,6 +155,7 @@ class Driver:
         # the client endpoint really starts.  start="alive": a bare Circuit as its constructor makes it (is_alive = True).
         self.start = start
         self.client = client
+        self.small_backlog = True     # see _subscribe_extra; the production-size walk switches it off
         self.budget = budget          # retry budget of the configuration (None: the code's default)
         self.loop_task = None
         if start == "alive":
@@ -193,6 +194,15 @@ class Driver:
         mh = self.sess.message_handler if level == "sess" else self.region.message_handler
         cell = [0]
         fut = None
+        if kind == "asyncq":
+            # a subscribe_async() consumer that does not read for a while: its block is entered and stays open
+            if self.small_backlog and hasattr(type(mh), "ASYNC_BACKLOG_LIMIT"):
+                # a backlog bound of the handler is a deep constant: made small so that the model's depth reaches past it
+                mh.ASYNC_BACKLOG_LIMIT = 3
+            cm = mh.subscribe_async(("ChatFromSimulator",), take=False)
+            get = cm.__enter__()
+            self.extra[level].append([kind, cell, None, False, get, cm])
+            return
         if kind == "waitfor":
             fut = mh.wait_for(("ChatFromSimulator",), take=False)
         else:
@@ -210,7 +220,7 @@ class Driver:
         for level, lst in self.extra.items():
             row = []
             for ent in lst:
-                kind, cell, fut, was_done = ent
+                kind, cell, fut, was_done = ent[:4]
                 if fut is not None:
                     n = 1 if (fut.done() and not was_done) else 0
                     ent[3] = fut.done()
@@ -220,6 +230,34 @@ class Driver:
                 row.append(n)
             dyn[level] = row
         return dyn
+
+    async def drain(self, level, i):
+        """The slow consumer reads until its queue is empty (a read that would block is abandoned)."""
+        ent = self.extra[level][i - 1]
+        get = ent[4]
+        got = []
+        ev = {"ev": "Drain", "level": level, "i": i}
+        while True:
+            t = asyncio.ensure_future(get())
+            for _ in range(3):
+                await asyncio.sleep(0)
+                if t.done():
+                    break
+            if not t.done():
+                t.cancel()
+                try:
+                    await t
+                except BaseException:  # noqa
+                    pass
+                break
+            if t.exception() is not None:
+                ev["raised"] = repr(t.exception())
+                break
+            got.append(t.result().packet_id)
+            if len(got) > 100000:
+                break
+        ev["got"] = got
+        return await self._observe(ev)
 
     async def subscribe(self, level, kind):
         st, r = common.impl_call(self._subscribe_extra, level, kind)
@@ -481,6 +519,8 @@ async def _do(drv: Driver, act, model_ids):
         return await drv.loop_tick(act["d"])
     if n == "Subscribe":
         return await drv.subscribe(act["l"], act["k"])
+    if n == "Drain":
+        return await drv.drain(act["l"], act["i"])
     if n == "Ping":
         return await drv.ping(act["oldest"])
     if n == "GoAlive":
@@ -513,7 +553,12 @@ def _compare(drv: Driver, act, obs, ev):
     n = act["n"]
     if any(not t["peer"] for t in tx):
         bad.append(("datagrams go to the peer", None, tx))
-    if n == "Ping":
+    if n == "Drain":
+        if ev.get("got") != out["drained"]:
+            bad.append(("async subscriber: every message once, in order", out["drained"], ev.get("got")))
+        if tx:
+            bad.append(("drain: nothing emitted", [], [t["name"] for t in tx]))
+    elif n == "Ping":
         exp_tx = sorted((real(t["id"]), t["rel"], t["resent"]) for t in out["tx"])
         got_tx = sorted((t["id"], t["rel"], t["resent"]) for t in tx)
         if exp_tx != got_tx or not ev.get("pong_ok"):
@@ -630,7 +675,7 @@ def _strip(evs):
     """Trace records: only what ClientCircuit_Trace reads."""
     res = []
     for ev in evs:
-        r = {k: v for k, v in ev.items() if k in ("ev", "p", "rel", "acks", "d", "fut", "match", "level", "kind", "how", "oldest", "pong_ok", "carry")}
+        r = {k: v for k, v in ev.items() if k in ("ev", "p", "rel", "acks", "d", "fut", "match", "level", "kind", "how", "oldest", "pong_ok", "carry", "i", "got")}
         r["tx"] = [{"id": t["id"], "rel": t["rel"], "resent": t["resent"], "acked": t["acked"], "peer": t["peer"]}
                    for t in ev["tx"]]
         if "dl" in ev:
@@ -910,6 +955,45 @@ async def _long_walk_async(args):
         await client.aclose()
 
 
+async def _slow_walk_async(args):
+    """Production values: one subscribe_async() consumer per level that does not read while `n` packets arrive (unreliable
+    ones: no ack traffic), with a few reliable ones and their retransmissions in between; then both drain."""
+    seed, n = args
+    import random
+    rng = random.Random(seed)
+    client = _imports()["HippoClient"]()
+    try:
+        drv = Driver(client)
+        drv.small_backlog = False
+        evs = drv.start_events()
+        evs.append(await drv.subscribe("sess", "asyncq"))
+        evs.append(await drv.subscribe("reg", "asyncq"))
+        pid = 10
+        rel = []
+        for k in range(n):
+            pid += 1
+            if k % 97 == 5:
+                rel.append(pid)
+                evs.append(await drv.recv(pid, True, [], "app"))
+            elif k % 97 == 40 and rel:
+                evs.append(await drv.recv(rng.choice(rel), True, [], "app"))      # a retransmission: suppressed
+                pid -= 1
+            else:
+                evs.append(await drv.recv(pid, False, [], "app"))
+        evs.append(await drv.drain("sess", 1))
+        evs.append(await drv.recv(pid + 1, False, [], "app"))
+        evs.append(await drv.drain("reg", 1))
+        evs.append(await drv.drain("sess", 1))
+        drv.close()
+        return _strip(evs)
+    finally:
+        await client.aclose()
+
+
+def _slow_walk_chunk(args):
+    return asyncio.run(_slow_walk_async(args))
+
+
 def _long_walk_chunk(args):
     return asyncio.run(_long_walk_async(args))
 
@@ -977,6 +1061,9 @@ def run(chk: Check):
         "pause is served by a stand-in for the module attribute `asyncio` of hippo_client, on virtual time); that loop skips "
         "circuits that are not alive, so on a circuit whose handshake is not through sends only grow older (unchanged code, "
         "assumed); the resendloop configuration sets ReliableResendInfo.tries_left = 2 on each send's public resend record",
+        "slow consumer: a subscribe_async(take=False) block is entered and left open; Drain reads until a read would block; "
+        "if MessageHandler has a class constant ASYNC_BACKLOG_LIMIT it is set to 3 on the handler instances of the exhaustive "
+        "configuration (deep constant), the slow-consumer walk runs against the production value with 1500+ packets",
         "a message object handed to send()/send_reliable() may already carry a packet ID (earlier / equal / later than IDs "
         "issued, or a still unacked send's ID); the law ignores it",
         "Tick = clock advance followed by Circuit.resend_unacked() (what HippoClient._attempt_resends calls)",
@@ -1009,6 +1096,9 @@ def run(chk: Check):
     # handler; duplicates of the announced packet itself and of newer ones must still be suppressed
     traces += _b1(chk, dict(base, RelPids="{1,2}", UnrelPids="{}", MaxRcv=3, MaxSends=0, MaxUnrel=0, MaxAcks=0, Ticks="{}",
                             MaxPings=2 if quick else 3, Oldest="{0,1,2,3}", Depth=7 if quick else 9), "ping", 11)
+    # a subscribe_async() consumer that does not read while packets arrive, then drains (backlog bound, if any, set to 3)
+    traces += _b1(chk, dict(base, RelPids="{1}", UnrelPids="{2}", MaxRcv=4, MaxSends=0, MaxUnrel=0, MaxAcks=0, Ticks="{}",
+                            MaxSubs=1, SubKinds='{"asyncq"}', Depth=7 if quick else 8), "slow-consumer", 13)
     # the client's own resend loop drives the clock: two reliable sends of different ages on a client-built circuit whose
     # handshake completes; a small budget (set on the resend records) so that one send's exhaustion is followed by more
     ltraces = _b1(chk, dict(base, Budget=2, SetBudget=2, RelPids="{}", UnrelPids="{1}", MaxRcv=1, MaxSends=2, MaxUnrel=0, MaxAcks=1,
@@ -1048,6 +1138,8 @@ def run(chk: Check):
     n_long = 2 if quick else 8
     longs = common.parallel_map(_long_walk_chunk, [(chk.rng.randrange(1 << 30), _WINDOW_REAL) for _ in range(n_long)])
     _b2(chk, longs, "window-walks", budget, every)
+    slow = common.parallel_map(_slow_walk_chunk, [(chk.rng.randrange(1 << 30), 1500 if quick else 2500) for _ in range(1 if quick else 2)])
+    _b2(chk, slow, "slow-consumer-walks", budget, every)
     chk.cov["window_walks"] = {"walks": n_long, "window": _WINDOW_REAL, "events": sum(len(t) for t in longs)}
     chk.cov["exhaustive"] = True
 
